@@ -428,10 +428,55 @@ class SymText:
             return _dec_limit(self, 128, errors)
         if e in ("latin1", "iso88591"):
             return SymText("str", self.cps)
+        if e in ("eucjp", "eucjis2004", "euckr", "gb2312", "gbk", "big5") and _len(self.cps) == 2 and errors == "strict":
+            return _dec_dbcs(self, enc)
         raise Unsupported("decode " + enc)
 
 
 _int_t = builtins.int
+
+
+DEC_OK = z3.Function("DBCS_OK", z3.IntSort(), z3.IntSort(), z3.BoolSort())
+DEC_CP = z3.Function("DBCS_CP", z3.IntSort(), z3.IntSort(), z3.IntSort())
+# byte pairs with their real decoding, used to make witnesses replayable (checked against the codec when used)
+DBCS_KNOWN = {"eucjp": [(0xB0, 0xA1, 0x4E9C), (0xB0, 0xA2, 0x5516), (0x8E, 0xB1, 0xFF71), (0xF4, 0xA6, 0x7199), (0xA2, 0xAF, None), (0xFE, 0xFE, None), (0xA9, 0xA1, None)]}
+
+
+def _dec_dbcs(t, enc):
+    """Two bytes through a double-byte codec: the codec itself is not modelled - validity and the resulting
+    character are uninterpreted functions of the two bytes (any codec behaviour is covered); witnesses are pinned
+    to byte pairs whose real decoding is known so that they replay."""
+    b0, b1 = _z(t.cps[0]), _z(t.cps[1])
+    ctx = Ctx.cur
+    rec = ctx.apps.setdefault("DBCS", (None, []))
+    rec[1].append((b0, b1))
+    cp = DEC_CP(b0, b1)
+    ctx.add_axiom(z3.And(cp >= 0x80, cp <= 0x10FFFF, z3.Or(cp < 0xD800, cp > 0xDFFF)))
+    if _sb(DEC_OK(b0, b1)):
+        return SymText("str", [SymInt(cp)])
+    raise UnicodeDecodeError(enc, b"??", 0, 2, "illegal multibyte sequence")
+
+
+def dbcs_refine(ctx, enc="eucjp"):
+    rec = ctx.apps.get("DBCS")
+    if not rec:
+        return []
+    out = []
+    for b0, b1 in rec[1]:
+        alts = []
+        for a, b, cp in DBCS_KNOWN[enc]:
+            real = None
+            try:
+                real = _ord(_bytes((a, b)).decode("euc-jp"))
+            except UnicodeDecodeError:
+                pass
+            assert real == cp, (a, b, real, cp)
+            if cp is None:
+                alts.append(z3.And(b0 == a, b1 == b, z3.Not(DEC_OK(b0, b1))))
+            else:
+                alts.append(z3.And(b0 == a, b1 == b, DEC_OK(b0, b1), DEC_CP(b0, b1) == cp))
+        out.append(z3.Or(*alts))
+    return out
 
 
 def _enc_limit(t, lim, errors, name):
